@@ -58,15 +58,15 @@ func guard(f func()) (g guardResult) {
 }
 
 type c08ctx struct {
-	cs     CaseSpec
-	res    *CaseResult
-	nw     *Network
-	victim *SimNode
-	byz    *SimNode
-	gen    *hostileGen
-	rng    *rand.Rand
-	before map[int]string
-	log    []string
+	cs             CaseSpec
+	res            *CaseResult
+	nw             *Network
+	victim         *SimNode
+	byz            *SimNode
+	gen            *hostileGen
+	rng            *rand.Rand
+	before         map[int]string
+	log            []string
 	adoptedForgery bool
 }
 
@@ -625,8 +625,8 @@ func init() {
 	}
 	register(&PropDef{
 		ID: "C08", Level: "exploration", Engine: "hostile",
-		Rule: "one case = one warmed-up 4-validator network (real nodes, ~120 steps of history) attacked with a seeded batch of ~300 hostile messages from a value grammar (strings: empty/short/odd hex/pipes/huge; ints: min,-1,0,1,huge; nil/empty/nil-element slices and maps; unknown ids): all four request types through the JSON wire copy into the real processRPC (babbling and suspended victims, plus events properly signed by a Byzantine validator with hostile block signatures / membership requests), hostile Sync/EagerSync responses and known-maps while the victim pulls/pushes, hostile FastForward responses to a catching-up node, hostile Join responses to a joining node, and raw byte streams on a real TCP transport; after every 25 messages a valid exchange with an honest companion must succeed and delivered blocks be unchanged, at the end a new transaction must still commit; non-trivial: >=20 hostile messages delivered; distinct by (seed,index,mode,count)",
-		Assumptions: []string{"in-process tier: one panic ends the case (the node's lock may be left held); the TCP tier runs real goroutines and a crash kills the worker, which is reported as a violation", "WebRTC transport not exercised"},
+		Rule:          "one case = one warmed-up 4-validator network (real nodes, ~120 steps of history) attacked with a seeded batch of ~300 hostile messages from a value grammar (strings: empty/short/odd hex/pipes/huge; ints: min,-1,0,1,huge; nil/empty/nil-element slices and maps; unknown ids): all four request types through the JSON wire copy into the real processRPC (babbling and suspended victims, plus events properly signed by a Byzantine validator with hostile block signatures / membership requests), hostile Sync/EagerSync responses and known-maps while the victim pulls/pushes, hostile FastForward responses to a catching-up node, hostile Join responses to a joining node, and raw byte streams on a real TCP transport; after every 25 messages a valid exchange with an honest companion must succeed and delivered blocks be unchanged, at the end a new transaction must still commit; non-trivial: >=20 hostile messages delivered; distinct by (seed,index,mode,count)",
+		Assumptions:   []string{"in-process tier: one panic ends the case (the node's lock may be left held); the TCP tier runs real goroutines and a crash kills the worker, which is reported as a violation", "WebRTC transport not exercised"},
 		MinNontrivial: 8,
 		Cases: func(tier string, seed int64) []CaseSpec {
 			count := 32
